@@ -477,6 +477,42 @@ def m_into_iter(ex, st, callee, args, dty, m):
     return NotImplemented
 
 
+@model(r"(?:std::ops::|core::ops::)?RangeInclusive::<(\w+)>::new$")
+def m_range_incl_new(ex, st, callee, args, dty, m):
+    a, b = args
+    if not (isinstance(a, I) and isinstance(b, I)):
+        return NotImplemented
+    return Agg("struct", "RangeInclusive", [a, b, z3.BoolVal(False)])
+
+
+def _range_incl_take(ex, st, r):
+    rng = deref(ex, r)
+    cur, end = rng.fields[0], rng.fields[1]
+    last = cur.bv == end.bv
+    rng.fields[0] = I(z3.simplify(z3.If(last, cur.bv, cur.bv + 1)), cur.signed)
+    rng.fields[2] = z3.simplify(last)
+    return mk_some("Option<%s>" % ("u64" if cur.bv.size() == 64 else "u32"), cur)
+
+
+@model(r"<(?:std::ops::|core::ops::)?RangeInclusive<(\w+)> as Iterator>::next$")
+def m_range_incl_next(ex, st, callee, args, dty, m):
+    r = args[0]
+    rng = deref(ex, r)
+    if not (isinstance(rng, Agg) and rng.name == "RangeInclusive"):
+        return NotImplemented
+    s, e, exh = rng.fields
+    le = z3.ULE(s.bv, e.bv) if not s.signed else s.bv <= e.bv
+    some = z3.simplify(z3.And(z3.Not(exh), le))
+    if z3.is_false(some):
+        return mk_none(dty)
+    return ("__fork__", [(some, ("__thunk__", lambda ex_, st_, ref: _retag(_range_incl_take(ex_, st_, ref), dty), r)), (z3.Not(some), mk_none(dty))])
+
+
+def _retag(v, dty):
+    v.ty = dty
+    return v
+
+
 @model(r"<(?:std::ops::|core::ops::)?Range<(\w+)> as Iterator>::next$")
 def m_range_next(ex, st, callee, args, dty, m):
     r = args[0]
